@@ -6,7 +6,7 @@ randomised outputs are checked by replaying the documented sampler on a clone of
 with a 6-sigma moment test as the arbiter when the replay disagrees (a change of draw order alone is not
 a violation of the property).
 
-As built: Workload extras: 1-19 arms, n_jobs in {1,2,3,-1} (threads), reward magnitudes 2^-40..2^40 and near-equal values (one class per history), arm changes before the first fit.
+As built: Workload extras: 1-19 arms, n_jobs in {1,2,3,-1} (threads), reward magnitudes 2^-40..2^40 and near-equal values (one class per history), arm changes before the first fit; in 1/27 of the cases one batch of 2^20 + k rows laid out arm by arm.
 """
 from mon import env  # noqa: F401
 import copy
@@ -26,7 +26,8 @@ RULE = ("seeded histories (4-25 ops over fit/partial_fit/add_arm/remove_arm/re-a
         "with a partial_fit omitting an already observed arm, or an arm change after training; distinct = "
         "(policy, label type, feature set, op skeleton)")
 BUDGET = {"quick": {"cases": 640, "shards": 8}, "thorough": {"cases": 40000, "shards": 16, "wall_s": 1500}}
-MIN = {"quick": {"evaluations": 3000, "nontrivial": 100}, "thorough": {"evaluations": 100000, "nontrivial": 2000}}
+MIN = {"quick": {"evaluations": 3000, "nontrivial": 100, "counters": {"huge_batches": 12}},
+       "thorough": {"evaluations": 100000, "nontrivial": 2000, "counters": {"huge_batches": 600}}}
 ASSUMPTIONS = ["rewards finite; binary for Thompson, non-negative for Popularity; decisions drawn from the current arms",
                "Popularity with all means zero directly after add_arm (normalisation undefined) is not judged",
                "sampler replay trusts numpy Generator (dirichlet/beta/random) as the documented distributions"]
@@ -143,6 +144,25 @@ def run_case(rs, ctx):
     n_ops = int(rs.integers(4, 26))
     pre = gen.gen_ops(rs, cfg, sh, int(rs.integers(0, 3)), ["add_arm", "remove_arm"])  # arm changes before first fit
     ops = pre + gen.gen_ops(rs, cfg, sh, 1, ["fit"], rkind=rk) + gen.gen_ops(rs, cfg, sh, n_ops, KINDS, train_rows=(1, 12), rkind=rk)
+    if (ctx.index // 6) % 27 == 5:
+        # one very long batch (2^20 + k rows, beyond any plausible internal block size) whose rows come arm by arm, as logs
+        # sorted by arm do; then the ordinary life goes on
+        nbig = 2 ** 20 + int(rs.integers(1, 2 ** 19))
+        arms_now = list(sh.arms)
+        cuts = sorted(int(c) for c in rs.integers(0, nbig, len(arms_now) - 1)) if len(arms_now) > 1 else []
+        if cuts and rs.integers(2):
+            cuts[-1] = min(cuts[-1], 2 ** 20 - 7)  # the last arm's run starts before the 2^20-th row ...
+        bounds = [0] + cuts + [nbig]
+        order = [arms_now[int(i)] for i in rs.permutation(len(arms_now))]
+        dbig = []
+        for a, lo, hi in zip(order, bounds[:-1], bounds[1:]):
+            dbig += [a] * (hi - lo)
+        rbig = gen.gen_rewards(rs, nbig, rk, cfg.get("reward_stress"))
+        ops.append({"op": gen.pick(rs, ["fit", "partial_fit"]), "d": dbig, "r": rbig, "X": None})
+        sh.rows = nbig
+        ops += gen.gen_ops(rs, cfg, sh, 1, ["predict_expectations"]) + gen.gen_ops(rs, cfg, sh, 3, KINDS, train_rows=(1, 12), rkind=rk) + \
+            gen.gen_ops(rs, cfg, sh, 1, ["predict_expectations"])
+        ctx.count("huge_batches")
     m = gen.build(cfg)
     led = Ledger(cfg["arms"])
     observed = set()
